@@ -62,6 +62,7 @@ enum rx_state {
 	RX_ST_CTRL,
 	RX_ST_DATA,
 	RX_ST_ESCAPE,
+	RX_ST_ADDR_ESCAPE,
 };
 
 static struct {
@@ -265,7 +266,16 @@ int sercomm_drv_rx_char(uint8_t ch)
 		sercomm.rx.state = RX_ST_ADDR;
 		break;
 	case RX_ST_ADDR:
+		if (ch == HDLC_ESCAPE) {
+			/* the transmitter escapes the address octet, too */
+			sercomm.rx.state = RX_ST_ADDR_ESCAPE;
+			break;
+		}
 		sercomm.rx.dlci = ch;
+		sercomm.rx.state = RX_ST_CTRL;
+		break;
+	case RX_ST_ADDR_ESCAPE:
+		sercomm.rx.dlci = ch ^ (1 << 5);
 		sercomm.rx.state = RX_ST_CTRL;
 		break;
 	case RX_ST_CTRL:
